@@ -37,6 +37,9 @@ theorem q_wants_text_iff (t : Nat) : Gen.Responder.q_wants_text t = true ↔ t =
 theorem addr_is_other_type_iff (a t : Nat) : Gen.Responder.addr_is_other_type a t = true ↔ a ≠ t := by
   simp [Gen.Responder.addr_is_other_type]
 
+theorem addr_is_other_type_iff_false (a t : Nat) : Gen.Responder.addr_is_other_type a t = false ↔ a = t := by
+  simp [Gen.Responder.addr_is_other_type]
+
 /-- known-answer suppression: the listed TTL is more than half of the record's -/
 theorem suppresses_ttl_iff (ttl other : Nat) : Gen.Dns.rrset_suppresses_ttl ttl other = true ↔ ttl < 2 * other := by
   simp [Gen.Dns.rrset_suppresses_ttl]; omega
